@@ -353,8 +353,8 @@ func c20Keys(p *Program, r *Report) {
 	// who touches the key table
 	okW := true
 	for _, a := range p.fieldAccesses(map[*types.Var]bool{s.Keys: true}) {
-		if a.Fresh {
-			continue
+		if a.Fresh || !a.Write {
+			continue // reading the table (a count for a log line) changes nothing; unsynchronised readers are C10's subject
 		}
 		root := a.Fn
 		for root.Parent() != nil {
@@ -364,7 +364,7 @@ func c20Keys(p *Program, r *Report) {
 			okW = false
 		}
 	}
-	r.Check(okW, "key table touched only by the actor scheduler's methods", s.T.Obj().Pos(), "no function outside the actor scheduler reads or writes the reference→key table")
+	r.Check(okW, "key table written only by the actor scheduler's methods", s.T.Obj().Pos(), "no function outside the actor scheduler inserts into, deletes from or replaces the reference→key table")
 }
 
 func c20Reject(p *Program, r *Report) {
